@@ -22,6 +22,60 @@ CHECKS = {
                 tech='fork-based symbolic execution + z3 optimality queries over the path condition'),
 }
 
+CHECKS.update({
+    'C05': dict(cat='model_checking', ref='DESIGN.md §6 C05',
+                text='Bounded symbolic model checking of approx_mcb_sva_{signed,fvs_trees,iso_trees} for k in {1,2,3} on symbolic weights (std::sort '
+                     'comparisons fork, so every scan order among ties is a leaf): after the call has returned, basis validity with descriptor '
+                     'membership in the caller\'s graph, and z3 proves ret == weight of the emitted cycles under the caller\'s map.',
+                tech='fork-based symbolic execution of the real templates + z3 (QF_LRA) obligations per leaf'),
+    'C06': dict(cat='model_checking', ref='DESIGN.md §6 C06',
+                text='Same runs as C05; per leaf z3 proves that no invertible GF(2) transform of the emitted basis B satisfies (2k-1)*w(B\') < ret '
+                     '(i.e. ret <= (2k-1)*OPT), single-exchange minimality for k=1, and k=0 is rejected with std::runtime_error and emits nothing.',
+                tech='fork-based symbolic execution + z3 queries quantifying over all cycle bases as invertible GF(2) matrices'),
+    'C08': dict(cat='model_checking', ref='DESIGN.md §6 C08',
+                text='Relational bounded model checking: two runs in one path over shared symbolic weights; z3 proves the relation between the two '
+                     'returned optima (variant pairs, vertex permutations, insertion orders, isolated/pendant/bridge additions, disjoint union, '
+                     'edge subdivision, scaling by powers of two).',
+                tech='relational (two-run) symbolic execution of the real templates, z3 equality obligations over the joint path condition'),
+    'C12': dict(cat='model_checking', ref='DESIGN.md §6 C12',
+                text='SPTree built for every source of the topology in one path on symbolic weights; z3 proves dist(v) = weight of the tree path and '
+                     '<= every simple path; concrete per leaf: tree shape, first-vertex labels, reversal and sub-path consistency across all trees.',
+                tech='fork-based symbolic execution of lex_dijkstra/SPTree + z3 distance obligations against all simple paths'),
+    'C13': dict(cat='exploration', ref='DESIGN.md §6 C13',
+                text='Topology-only property: adjacency bits are boolean variables decided through the engine, so every labelled simple graph on n<=5 '
+                     '(thorough 6, and the sparse/dense ends of 7) vertices is visited; on each the emitted set is checked with an independent union-find. '
+                     'Exhaustive within the bound; the solver has nothing numeric to decide (degenerate case of the technique).',
+                tech='exhaustive enumeration of adjacency bits through the symbolic engine (no numeric solver content)'),
+    'C14': dict(cat='model_checking', ref='DESIGN.md §6 C14',
+                text='Horton, FVS and isometric collections built on the same symbolic weights in one path; per candidate the harness unfolds the cycle, '
+                     'z3 proves recorded weight = true weight; nestedness is concrete; sufficiency is one z3 query per collection: every simple cycle '
+                     'lies in the GF(2) span of the candidates that are no heavier.',
+                tech='fork-based symbolic execution + z3 span/weight obligations'),
+    'C15': dict(cat='model_checking', ref='DESIGN.md §6 C15',
+                text='BaseApproxSpannerAlgorithm constructed on symbolic weights (guarded accessors); z3 proves spanner edges carry the input weights and '
+                     'each dropped edge has a <=2k-1-edge path of no-heavier retained edges; partition, subgraph and girth>2k are concrete per leaf.',
+                tech='fork-based symbolic execution (std::sort forks over all tie orders) + z3 obligations'),
+    'C16': dict(cat='exploration', ref='DESIGN.md §6 C16',
+                text='Topology-only: every labelled simple graph on n<=5 (thorough 6) vertices in three insertion orders on the real adjacency_list; '
+                     'bijection/inverse, component count, dimension, forest flag and spanning-forest checks with an independent union-find. Exhaustive within the bound.',
+                tech='exhaustive enumeration of adjacency bits through the symbolic engine (no numeric solver content)'),
+    'C17': dict(cat='model_checking', ref='DESIGN.md §6 C17',
+                text='SpVecGF2<symx::Int> (unbounded indices): inductive step from arbitrary canonical pre-states (sets of symbolic size <= L) and short '
+                     'histories; after every operation z3 proves entries strictly increasing and, for a fresh universally quantified coordinate j, '
+                     'j in entries <=> dense XOR model(j); dot products equal the parity of common ones.',
+                tech='symbolic execution with integer-sorted indices; z3 (LIA) proves equivalence with a dense model for a universally quantified coordinate'),
+    'C18': dict(cat='model_checking', ref='DESIGN.md §6 C18',
+                text='fp<T>, primes<T>, SpVecFP<P> instantiated with two\'s-complement bit-vectors: Bezout identity/divisibility in 2W-bit arithmetic, inverse '
+                     'correctness/throwing, primality against an exhaustive oracle in the bound, SpVecFP against a dense model mod p with signed-overflow monitors.',
+                tech='symbolic execution over bit-vectors (per-query bit-blasting with z3)'),
+    'C20': dict(cat='model_checking', ref='DESIGN.md §6 C20', engine='ir2c',
+                text='set_global_tbb_concurrency lowered from clang IR to C and checked by CBMC against the global_control life-cycle model: after each of '
+                     'up to 3 (thorough 6) calls with arbitrary n the active limit equals n; unwinding assertions on.',
+                tech='clang LLVM IR -> C translation checked by CBMC (bounded model checking, kissat/cadical back ends)',
+                note='Trusted: the global_control life-cycle model (create/destroy/active_value = min of live limits), ir2c.py (validated per run by a '
+                     'differential run against the real function with real libtbb), cbmc. The demos\' --cores handling in main() is outside the claim.'),
+})
+
 NOT_APPLICABLE = {
 }
 
